@@ -18,6 +18,7 @@ import (
 	"github.com/polynetwork/poly/common/config"
 	vconfig "github.com/polynetwork/poly/consensus/vbft/config"
 	"github.com/polynetwork/poly/core/genesis"
+	"github.com/polynetwork/poly/core/ledger"
 	"github.com/polynetwork/poly/core/payload"
 	"github.com/polynetwork/poly/core/signature"
 	"github.com/polynetwork/poly/core/store/ledgerstore"
@@ -30,6 +31,7 @@ import (
 type Chain struct {
 	Dir       string
 	Store     *ledgerstore.LedgerStoreImp
+	Ledger    *ledger.Ledger // the same store behind the node's Ledger facade (what RPC/relayers use)
 	Vals      []*account.Account // genesis validators (pool accounts 0..n-1)
 	Cur       []*account.Account // validator set in force for the next block (block track model)
 	Genesis   *types.Block
@@ -64,12 +66,13 @@ func Open(dir string, n int, networkID uint32) (*Chain, error) {
 	if err != nil {
 		return nil, err
 	}
-	st, err := ledgerstore.NewLedgerStore(dir)
+	ldg, err := ledger.NewLedger(dir)
 	if err != nil {
 		return nil, err
 	}
-	c := &Chain{Dir: dir, Store: st, Vals: vals, Cur: vals, Genesis: gb, NetworkID: networkID, VBFT: cfg}
-	if err := st.InitLedgerStoreWithGenesisBlock(gb, pubs(vals)); err != nil {
+	st := ldg.GetStore().(*ledgerstore.LedgerStoreImp)
+	c := &Chain{Dir: dir, Store: st, Ledger: ldg, Vals: vals, Cur: vals, Genesis: gb, NetworkID: networkID, VBFT: cfg}
+	if err := ldg.Init(pubs(vals), gb); err != nil {
 		st.Close()
 		return nil, err
 	}
@@ -268,6 +271,12 @@ func (c *Chain) Build(txs []*types.Transaction, o BlockOpt) *types.Block {
 		ConsensusData:    o.ConsensusDat,
 		ConsensusPayload: payloadBytes,
 		BlockRoot:        RefBlockRoot(chain, height),
+	}
+	// like the consensus message builder: a header carries the cross-state root of its parent block
+	if c.Store != nil && o.Parent == nil {
+		if r, err := c.Store.GetCrossStateRoot(parent.Header.Height); err == nil {
+			hdr.CrossStateRoot = r
+		}
 	}
 	if o.PrevHash != nil {
 		hdr.PrevBlockHash = *o.PrevHash
